@@ -185,6 +185,40 @@ def probe(seed):
             except BaseException as e: got = (type(e).__name__, e.args)
             if got != want: bad.append(["has through " + label, repr(exc), msg, list(got) if isinstance(got, tuple) else got, list(want)])
     return bad
+
+def roundtrip():
+    # errors that carry a message AND a list of errors (what a scheme-style validator with a configured message raises), errors with only
+    # one of the two, and with neither: each survives pickle (default protocol and protocol 2), copy and deepcopy unchanged
+    import pickle, copy
+    bad = []
+    class Scheme:
+        def __init__(self, data): self.data = data; self.errors = None
+        def is_valid(self):
+            if self.data.get("x", 0) > 0: return True
+            self.errors = ["x must be positive"]; return False
+    def vf(x): return x
+    ways = (("pickle", lambda x: pickle.loads(pickle.dumps(x))), ("pickle2", lambda x: pickle.loads(pickle.dumps(x, 2))), ("copy", copy.copy), ("deepcopy", copy.deepcopy))
+    for msg in (None, "bad input"):
+        f = deal.pre(Scheme, **({} if msg is None else {"message": msg}))(vf)
+        try: f(-1); bad.append(["scheme validator did not reject", msg])
+        except deal.PreContractError as e:
+            if e.errors != ["x must be positive"] or (msg is not None and e.message != msg): bad.append(["scheme error fields", msg, e.message, e.errors])
+            e2 = type(e)(message=e.message, errors=e.errors)      # the same error without its references to the validator and the function (C10-F1 is about those)
+            for how, rt in ways:
+                try:
+                    r = rt(e2)
+                    if (type(r), r.message, r.errors, str(r)) != (type(e2), e2.message, e2.errors, str(e2)): bad.append(["scheme", how, "changed", msg, str(r)])
+                except BaseException as x: bad.append(["scheme", how, "raised", msg, repr(x)])
+    for cls in (deal.PreContractError, deal.PostContractError, deal.InvContractError, deal.RaisesContractError, deal.ReasonContractError, deal.MarkerError,
+                deal.SilentContractError, deal.OfflineContractError, deal.ExampleContractError, deal.ContractError):
+        for m, errs in (("", None), ("m", None), ("", ["e1"]), ("m", ["e1", "e2"])):
+            e = cls(message=m, errors=errs)
+            for how, rt in ways:
+                try:
+                    r = rt(e)
+                    if (type(r), r.message, r.errors, str(r)) != (cls, e.message, e.errors, str(e)): bad.append([cls.__name__, how, "changed", m, errs, str(r)])
+                except BaseException as x: bad.append([cls.__name__, how, "raised", m, errs, repr(x)])
+    return bad
 """
 
 
@@ -211,6 +245,13 @@ def run(ctx, fr, model_available=True):
     elif r:
         fr.violations.append({'scenario': {'family': 'factory', 'seed': ctx.seed}, 'impl': r[:4], 'signature': None,
                               'what': f'the params of a violation error are not the arguments of the failing call (passed or default values): {r[0]}'})
+    r = impl.run_impl('pyexec.py', {'src': FACTORY_SRC, 'calls': [['roundtrip', []]]})[0]
+    fr.evaluations += 168; fr.add_nontrivial({'roundtrip_probe': 0})
+    fr.samples.append({'family': 'errors with message and / or errors through pickle and copy', 'deviations': r})
+    if isinstance(r, dict): fr.errors.append('C10 round-trip probe failed: ' + str(r)[:400])
+    elif r:
+        fr.violations.append({'scenario': {'family': 'roundtrip'}, 'impl': r[:4], 'signature': None,
+                              'what': f'a violation error does not survive pickling / copying unchanged: [class, how, what, message, errors, ...] = {r[0]}'})
 def search(ctx, fr, model_available=True):
     class C2: tier = 'thorough'; seed = ctx.seed
     scs = cells('thorough', ctx.seed)
